@@ -12,7 +12,8 @@ BaseFiles == Files(LangByName(BaseName), Layout)
 FileNo == atoi(EnvOr("VERIF_FILE", "1"))             \* which file of the layout is mutated
 KindOf(t) == IF t.k = "NUM10" THEN "FLOAT" ELSE t.k
 BaseKinds == [i \in DOMAIN BaseFiles[FileNo].toks |-> KindOf(BaseFiles[FileNo].toks[i])]
-InsertPool == {"ID", "LCURLY", "RCURLY", "DOT", "LEADSTO", "COMMA", "LSQUARE", "STAR", "OR", "HASH"}
+\* JUNK / JUNK2: a character that is no token of the language at all (";", "$"): a lexical error
+InsertPool == {"ID", "LCURLY", "RCURLY", "DOT", "LEADSTO", "COMMA", "LSQUARE", "STAR", "OR", "HASH", "JUNK", "JUNK2"}
 ReservedKinds == {"EXISTS", "C"}
 N == Len(BaseKinds)
 Muts == { [op |-> "delete", pos |-> p, kind |-> "-"] : p \in 1..N }
